@@ -512,3 +512,28 @@ pub unsafe extern "C" fn read(fd: c_int, buf: *mut c_void, count: size_t) -> ssi
     }
     unsafe { libc::syscall(libc::SYS_read, fd, buf, n) as ssize_t }
 }
+
+
+/// C10 for the library and the JS-facing API: linting through them must not touch the network
+/// and must not create, modify or remove any file at all (there are no configured files here).
+pub fn library_closed_world_check(job: &crate::job::Job, res: &mut crate::job::RunResult) {
+    let (lines, overflow) = take_log();
+    if job.prop != "C10" {
+        return;
+    }
+    if overflow {
+        res.harness("seam log overflow");
+    }
+    res.count("c10_library_runs_checked", 1);
+    let bad: Vec<String> = lines.into_iter().filter(|l| l.starts_with("NET ") || l.starts_with("W ") || l.starts_with("MK ") || l.starts_with("RM ") || l.starts_with("MV ")).collect();
+    if !bad.is_empty() {
+        let net = bad.iter().any(|b| b.starts_with("NET "));
+        res.violate(crate::job::Violation {
+            property: "C10".into(),
+            oracle: if net { "C10.no_network".into() } else { "C10.writes_confined".into() },
+            class: if net { "network_call".into() } else { "write_outside_configured".into() },
+            detail: format!("while linting through the library / the JS-facing API ({}), Harper {}: {:?}", job.engine, if net { "made a network call" } else { "created or modified files" }, bad.iter().take(6).collect::<Vec<_>>()),
+            facts: serde_json::json!({"engine": job.engine}),
+        });
+    }
+}
